@@ -492,6 +492,7 @@ func runCheck(id, tier string) int {
 	}
 	loadSecs := time.Since(t0).Seconds()
 	solver := NewSolver(filepath.Join(verifDir, ".cache"), timeout)
+	solver.extend = true
 	defer solver.Close()
 	cs := NewSolver(filepath.Join(verifDir, ".cache"), 3*time.Second)
 	defer cs.Close()
@@ -507,6 +508,7 @@ func runCheck(id, tier string) int {
 	bySolver := map[string]int{}
 	maxSecs, sumSecs := 0.0, 0.0
 	var samples []map[string]any
+	var slow []map[string]any
 	deadOK := map[string]bool{}
 	for _, d := range pc.DeadOK {
 		deadOK[d] = true
@@ -561,13 +563,14 @@ func runCheck(id, tier string) int {
 				if r.Res.Secs > maxSecs {
 					maxSecs = r.Res.Secs
 				}
+				slow = append(slow, map[string]any{"function": r.Fn, "obligation": r.O.Name, "solver": r.Res.Solver, "secs": r.Res.Secs})
 			}
 			if len(samples) < 6 && (r.O.Kind == "ensures" || strings.Contains(r.O.Kind, "inv") || len(samples) < 2) {
 				samples = append(samples, map[string]any{"function": r.Fn, "obligation": r.O.Name, "clause": r.O.Src, "position": fmt.Sprintf("%s:%d", shortFile(r.O.Pos.Filename), r.O.Pos.Line), "smt_bytes": len(r.Query), "solver": r.Res.Solver, "secs": r.Res.Secs, "cached": r.Res.Cached})
 			}
 			continue
 		}
-		report(r.Fn, r.O.Name, fmt.Sprintf("solvers answered %q within %s (z3 5.1.0, cvc5 1.0.3, z3 4.8.12 raced)", r.Res.Status, timeout), r.Terms, &r.O, r.Query)
+		report(r.Fn, r.O.Name, fmt.Sprintf("solvers answered %q within %s%s (z3 5.1.0, cvc5 1.0.3, z3 4.8.12 raced)", r.Res.Status, timeout, extendNote()), r.Terms, &r.O, r.Query)
 	}
 	vacuous := 0
 	for _, c := range covers {
@@ -616,6 +619,7 @@ func runCheck(id, tier string) int {
 			"undecided_remainder":     pc.Undecided,
 			"bounded_not_proved":      boundedOut,
 			"samples":                 samples,
+			"slowest_obligations":     slowest(slow, 5),
 			"load_seconds":            loadSecs,
 			"integer_semantics":       "mathematical Int with explicit wrap for unsigned ops and an int-overflow obligation per signed + - *",
 			"extraction_drops":        "DebugRef/positions; callee bodies (contract, or inlined when loop-free and in-repo); go/select/channel ops abstracted as arbitrary calls (listed per function under out_of_subset); string contents uninterpreted; map iteration order arbitrary",
@@ -647,4 +651,20 @@ func countChecked(cs []Clause) int {
 		}
 	}
 	return n
+}
+
+// slowest: the n slowest (uncached) discharged obligations of a run, for the evidence file.
+func slowest(all []map[string]any, n int) []map[string]any {
+	sort.Slice(all, func(i, j int) bool { return all[i]["secs"].(float64) > all[j]["secs"].(float64) })
+	if len(all) > n {
+		all = all[:n]
+	}
+	return all
+}
+
+func extendNote() string {
+	if os.Getenv("GOVC_NO_EXTEND") == "1" {
+		return ""
+	}
+	return " and, where that limit was hit, within a second race with three times the limit"
 }
